@@ -363,3 +363,206 @@ Proof.
     + inversion Hn; subst n. cbn [on_with_ch on_ch]. apply nodup_aset. apply (hi_chnodup _ _ Hinv _ _ Hp).
     + destruct (Nat.eqb i (length h)); [inversion Hn; subst; rewrite Hndch; constructor|]. apply (hi_chnodup _ _ Hinv _ _ Hn).
 Qed.
+
+(* the edge clause after adding the key of ps/c and the entry c of directory p, both for node t *)
+Lemma edge_add idx h h' ps c p t :
+  hinv idx h -> gcs ps -> good_comp c ->
+  Fi idx ps = Some p -> is_dir_at h p -> Fi idx (ps ++ [c]) = None ->
+  (forall q c', Ch h' q c' = if Nat.eqb p q && str_eqb c' c then Some t else Ch h q c') ->
+  (forall c', Ch h t c' = None) -> t <> p ->
+  forall cs c' i, gcs cs -> good_comp c' ->
+    (Fi (aset str_eqb (rpath (ps ++ [c])) t idx) (cs ++ [c']) = Some i
+     <-> exists q, Fi (aset str_eqb (rpath (ps ++ [c])) t idx) cs = Some q /\ Ch h' q c' = Some i).
+Proof.
+  intros Hinv Hps Hc HFp Hpd HFn HCh Htleaf Htp cs c' i Hcs Hc'.
+  assert (Hgk : gcs (ps ++ [c])) by (apply gcs_snoc; assumption).
+  destruct (cs_eq_dec (cs ++ [c']) (ps ++ [c])) as [E|Hne].
+  - apply app_inj_tail in E. destruct E as [-> ->]. rewrite Fi_aset_eq.
+    rewrite Fi_aset_neq by (try assumption; apply snoc_neq_self). rewrite HFp. split.
+    + intros [= <-]. exists p. split; [reflexivity|]. rewrite HCh, Nat.eqb_refl, str_eqb_refl. reflexivity.
+    + intros (q & [= <-] & Hq). rewrite HCh, Nat.eqb_refl, str_eqb_refl in Hq. exact Hq.
+  - rewrite Fi_aset_neq by (try assumption; apply gcs_snoc; assumption).
+    rewrite (hi_edge _ _ Hinv cs c' i Hcs Hc').
+    destruct (cs_eq_dec cs (ps ++ [c])) as [->|Hne2].
+    + rewrite Fi_aset_eq. rewrite HFn. split.
+      * intros (q & Hq & _). discriminate.
+      * intros (q & [= <-] & Hq). rewrite HCh in Hq.
+        destruct (Nat.eqb_spec p t) as [E|_]; [congruence|]. cbn [andb] in Hq. rewrite Htleaf in Hq. discriminate.
+    + rewrite Fi_aset_neq by assumption.
+      split; intros (q & Hq & Hqc); exists q; (split; [exact Hq|]).
+      * rewrite HCh. destruct (Nat.eqb_spec p q) as [<-|_]; [|exact Hqc].
+        destruct (str_eqb_spec c' c) as [->|_]; [|exact Hqc]. exfalso. apply Hne.
+        rewrite (dir_key_unique idx h Hinv cs ps p Hcs Hps Hq HFp Hpd). reflexivity.
+      * rewrite HCh in Hqc. destruct (Nat.eqb_spec p q) as [<-|_]; [|exact Hqc].
+        destruct (str_eqb_spec c' c) as [->|_]; [|exact Hqc]. exfalso. apply Hne.
+        rewrite (dir_key_unique idx h Hinv cs ps p Hcs Hps Hq HFp Hpd). reflexivity.
+Qed.
+
+(* ---- P3: a second name for an existing file (Link) ------------------------------------------ *)
+Lemma hinv_link idx h ps c p pn oc ocn :
+  hinv idx h -> gcs ps -> good_comp c ->
+  Fi idx ps = Some p -> oget h p = Some pn -> on_dir pn = true ->
+  Fi idx (ps ++ [c]) = None ->
+  oget h oc = Some ocn -> on_dir ocn = false ->
+  hinv (aset str_eqb (rpath (ps ++ [c])) oc idx)
+       (oupd (o_add_child h p c oc) oc (on_with_nlink ocn (on_nlink ocn + 1))).
+Proof.
+  intros Hinv Hps Hc HFp Hp Hpd HFn Hoc Hocd.
+  assert (Hgk : gcs (ps ++ [c])) by (apply gcs_snoc; assumption).
+  assert (HKnil : rpath (ps ++ [c]) <> []) by apply rpath_snoc_not_nil.
+  assert (HKsl : rpath (ps ++ [c]) <> [SLASH]) by (apply rpath_not_slash; apply gcs_ok; exact Hgk).
+  assert (Hne : oc <> p) by (intros ->; rewrite Hp in Hoc; inversion Hoc; subst; congruence).
+  assert (Hoc0 : oc <> 0).
+  { intros ->. destruct (hi_rootdir _ _ Hinv) as (r & Hr & Hrd). rewrite Hoc in Hr. inversion Hr; subst. congruence. }
+  assert (Hoc1 : oget (o_add_child h p c oc) oc = Some ocn).
+  { unfold o_add_child. rewrite Hp. rewrite (oget_oupd _ _ _ _ _ Hp).
+    destruct (Nat.eqb_spec p oc) as [E|_]; [congruence|exact Hoc]. }
+  assert (Hget : forall i, oget (oupd (o_add_child h p c oc) oc (on_with_nlink ocn (on_nlink ocn + 1))) i =
+            if Nat.eqb oc i then Some (on_with_nlink ocn (on_nlink ocn + 1))
+            else if Nat.eqb p i then Some (on_with_ch pn (aset str_eqb c oc (on_ch pn))) else oget h i).
+  { intros i. rewrite (oget_oupd _ _ _ _ _ Hoc1). destruct (Nat.eqb oc i); [reflexivity|].
+    unfold o_add_child. rewrite Hp. apply (oget_oupd _ _ _ _ _ Hp). }
+  assert (HCh : forall q c', Ch (oupd (o_add_child h p c oc) oc (on_with_nlink ocn (on_nlink ocn + 1))) q c' =
+            if Nat.eqb p q && str_eqb c' c then Some oc else Ch h q c').
+  { intros q c'. rewrite (Ch_oupd_same _ _ _ _ Hoc1) by reflexivity. apply (Ch_add_child _ _ _ _ _ Hp). }
+  assert (Hleaf : forall c', Ch h oc c' = None).
+  { intros c'. unfold Ch. rewrite Hoc. rewrite (hi_leaf _ _ Hinv _ _ Hoc Hocd). reflexivity. }
+  constructor.
+  - apply nodup_aset. apply (hi_nodup _ _ Hinv).
+  - intros k i Hk. unfold ikey in Hk. destruct (str_eqb_spec k (rpath (ps ++ [c]))) as [->|Hnk].
+    + right. exists (ps ++ [c]). auto.
+    + rewrite al_aset_neq in Hk by exact Hnk. apply (hi_keys _ _ Hinv _ _ Hk).
+  - unfold ikey. rewrite !al_aset_neq by congruence. apply (hi_root _ _ Hinv).
+  - destruct (hi_rootdir _ _ Hinv) as (r & Hr & Hrd). unfold is_dir_at. rewrite Hget.
+    destruct (Nat.eqb_spec oc 0) as [E|_]; [congruence|].
+    destruct (Nat.eqb_spec p 0) as [->|_]; [|eauto].
+    eexists. split; [reflexivity|]. rewrite Hp in Hr. inversion Hr; subst. exact Hrd.
+  - intros cs Hcs HF. destruct (cs_eq_dec cs (ps ++ [c])) as [->|Hnc].
+    + rewrite Fi_aset_eq in HF. congruence.
+    + rewrite Fi_aset_neq in HF by assumption. apply (hi_rootkey _ _ Hinv _ Hcs HF).
+  - intros k i Hk. unfold ikey in Hk. rewrite Hget. destruct (str_eqb_spec k (rpath (ps ++ [c]))) as [->|Hnk].
+    + rewrite al_aset_eq in Hk. inversion Hk; subst i. rewrite Nat.eqb_refl. eauto.
+    + rewrite al_aset_neq in Hk by exact Hnk. destruct (hi_valid _ _ Hinv _ _ Hk) as (n & Hn).
+      destruct (Nat.eqb oc i); [eauto|]. destruct (Nat.eqb p i); eauto.
+  - apply (edge_add idx h _ ps c p oc Hinv Hps Hc HFp); try assumption. exists pn. auto.
+  - intros i n Hn Hnd. rewrite Hget in Hn. destruct (Nat.eqb oc i).
+    + inversion Hn; subst n. cbn [on_with_nlink on_ch]. apply (hi_leaf _ _ Hinv _ _ Hoc Hocd).
+    + destruct (Nat.eqb p i).
+      * inversion Hn; subst n. change (on_dir pn = false) in Hnd. congruence.
+      * apply (hi_leaf _ _ Hinv _ _ Hn Hnd).
+  - intros i n Hn Hi0. rewrite Hget in Hn. unfold kcount.
+    rewrite kcount_aset_new by exact HFn. fold (kcount i idx). cbv beta.
+    destruct (Nat.eqb_spec oc i) as [<-|Hoi].
+    + inversion Hn; subst n. cbn [on_with_nlink on_nlink].
+      rewrite (hi_nlink _ _ Hinv _ _ Hoc Hi0). lia.
+    + rewrite Nat.add_0_r. destruct (Nat.eqb p i) eqn:Epi.
+      * apply Nat.eqb_eq in Epi. subst i. inversion Hn; subst n. cbn [on_with_ch on_nlink]. apply (hi_nlink _ _ Hinv _ _ Hp Hi0).
+      * apply (hi_nlink _ _ Hinv _ _ Hn Hi0).
+  - intros i n Hn Hnd. rewrite Hget in Hn. destruct (Nat.eqb oc i).
+    + inversion Hn; subst n. change (on_dir ocn = true) in Hnd. congruence.
+    + destruct (Nat.eqb p i).
+      * inversion Hn; subst n. cbn [on_with_ch on_nlink]. apply (hi_dirnlink _ _ Hinv _ _ Hp Hpd).
+      * apply (hi_dirnlink _ _ Hinv _ _ Hn Hnd).
+  - intros i n c' j Hn Hin. rewrite Hget in Hn. destruct (Nat.eqb oc i).
+    + inversion Hn; subst n. cbn [on_with_nlink on_ch] in Hin. apply (hi_chgood _ _ Hinv _ _ _ _ Hoc Hin).
+    + destruct (Nat.eqb p i).
+      * inversion Hn; subst n. cbn [on_with_ch on_ch] in Hin. apply in_aset_cases in Hin.
+        destruct Hin as [[-> _]|Hin]; [exact Hc|]. apply (hi_chgood _ _ Hinv _ _ _ _ Hp Hin).
+      * apply (hi_chgood _ _ Hinv _ _ _ _ Hn Hin).
+  - intros i n Hn. rewrite Hget in Hn. destruct (Nat.eqb oc i).
+    + inversion Hn; subst n. cbn [on_with_nlink on_ch]. apply (hi_chnodup _ _ Hinv _ _ Hoc).
+    + destruct (Nat.eqb p i).
+      * inversion Hn; subst n. cbn [on_with_ch on_ch]. apply nodup_aset. apply (hi_chnodup _ _ Hinv _ _ Hp).
+      * apply (hi_chnodup _ _ Hinv _ _ Hn).
+Qed.
+
+(* ---- P4: a name of a childless node goes away (Remove; the destination of Rename) ---------------- *)
+Lemma hinv_unlink idx h ps c p pn t tn :
+  hinv idx h -> gcs ps -> good_comp c ->
+  Fi idx ps = Some p -> oget h p = Some pn ->
+  Fi idx (ps ++ [c]) = Some t -> oget h t = Some tn -> on_ch tn = [] ->
+  hinv (aremove str_eqb (rpath (ps ++ [c])) idx) (o_del_child (o_release h t) p c).
+Proof.
+  intros Hinv Hps Hc HFp Hp HFt Ht Htch.
+  assert (Hgk : gcs (ps ++ [c])) by (apply gcs_snoc; assumption).
+  assert (HKnil : rpath (ps ++ [c]) <> []) by apply rpath_snoc_not_nil.
+  assert (HKsl : rpath (ps ++ [c]) <> [SLASH]) by (apply rpath_not_slash; apply gcs_ok; exact Hgk).
+  destruct (parent_is_dir idx h Hinv ps c t Hps Hc HFt) as (p' & pn' & HFp' & Hp' & Hpd & Hpc).
+  rewrite HFp in HFp'. inversion HFp'; subst p'. rewrite Hp in Hp'. inversion Hp'; subst pn'. clear HFp' Hp'.
+  assert (Ht0 : t <> 0).
+  { intros ->. pose proof (hi_rootkey _ _ Hinv _ Hgk HFt) as E. destruct ps; discriminate. }
+  assert (Htp : t <> p).
+  { intros ->. pose proof (dir_key_unique idx h Hinv _ _ p Hgk Hps HFt HFp) as E.
+    apply (snoc_neq_self _ ps c). symmetry. apply E. exists pn. auto. }
+  assert (Hp1 : oget (o_release h t) p = Some pn).
+  { unfold o_release. rewrite Ht. rewrite (oget_oupd _ _ _ _ _ Ht). destruct (Nat.eqb_spec t p); [congruence|exact Hp]. }
+  assert (Hget : forall i, oget (o_del_child (o_release h t) p c) i =
+            if Nat.eqb p i then Some (on_with_ch pn (aremove str_eqb c (on_ch pn)))
+            else if Nat.eqb t i then Some (on_remove tn) else oget h i).
+  { intros i. unfold o_del_child. rewrite Hp1. rewrite (oget_oupd _ _ _ _ _ Hp1).
+    destruct (Nat.eqb p i); [reflexivity|]. unfold o_release. rewrite Ht. apply (oget_oupd _ _ _ _ _ Ht). }
+  assert (HCh : forall q c', Ch (o_del_child (o_release h t) p c) q c' =
+            if Nat.eqb p q && str_eqb c' c then None else Ch h q c').
+  { intros q c'. rewrite (Ch_del_child _ _ _ _ Hp1). destruct (Nat.eqb p q && str_eqb c' c); [reflexivity|].
+    rewrite (Ch_release _ _ _ Ht). destruct (Nat.eqb_spec t q) as [<-|_]; [|reflexivity].
+    unfold Ch. rewrite Ht, Htch. reflexivity. }
+  constructor.
+  - apply nodup_aremove. apply (hi_nodup _ _ Hinv).
+  - intros k i Hk. unfold ikey in Hk. destruct (str_eqb_spec k (rpath (ps ++ [c]))) as [->|Hnk].
+    + rewrite al_aremove_eq in Hk. discriminate.
+    + rewrite al_aremove_neq in Hk by exact Hnk. apply (hi_keys _ _ Hinv _ _ Hk).
+  - unfold ikey. rewrite !al_aremove_neq by congruence. apply (hi_root _ _ Hinv).
+  - destruct (hi_rootdir _ _ Hinv) as (r & Hr & Hrd). unfold is_dir_at. rewrite Hget.
+    destruct (Nat.eqb_spec p 0) as [->|_].
+    + eexists. split; [reflexivity|]. exact Hpd.
+    + destruct (Nat.eqb_spec t 0) as [E|_]; [congruence|eauto].
+  - intros cs Hcs HF. destruct (cs_eq_dec cs (ps ++ [c])) as [->|Hnc].
+    + rewrite Fi_aremove_eq in HF. discriminate.
+    + rewrite Fi_aremove_neq in HF by assumption. apply (hi_rootkey _ _ Hinv _ Hcs HF).
+  - intros k i Hk. unfold ikey in Hk. rewrite Hget. destruct (str_eqb_spec k (rpath (ps ++ [c]))) as [->|Hnk].
+    + rewrite al_aremove_eq in Hk. discriminate.
+    + rewrite al_aremove_neq in Hk by exact Hnk. destruct (hi_valid _ _ Hinv _ _ Hk) as (n & Hn).
+      destruct (Nat.eqb p i); [eauto|]. destruct (Nat.eqb t i); eauto.
+  - intros cs c' i Hcs Hc'.
+    destruct (cs_eq_dec (cs ++ [c']) (ps ++ [c])) as [E|Hne].
+    + apply app_inj_tail in E. destruct E as [-> ->]. rewrite Fi_aremove_eq.
+      rewrite Fi_aremove_neq by (try assumption; apply snoc_neq_self). rewrite HFp. split; [discriminate|].
+      intros (q & [= <-] & Hq). rewrite HCh, Nat.eqb_refl, str_eqb_refl in Hq. discriminate.
+    + rewrite Fi_aremove_neq by (try assumption; apply gcs_snoc; assumption).
+      rewrite (hi_edge _ _ Hinv cs c' i Hcs Hc').
+      destruct (cs_eq_dec cs (ps ++ [c])) as [->|Hne2].
+      * rewrite Fi_aremove_eq. rewrite HFt. split.
+        -- intros (q & [= <-] & Hq). unfold Ch in Hq. rewrite Ht, Htch in Hq. discriminate.
+        -- intros (q & Hq & _). discriminate.
+      * rewrite Fi_aremove_neq by assumption.
+        split; intros (q & Hq & Hqc); exists q; (split; [exact Hq|]).
+        -- rewrite HCh. destruct (Nat.eqb_spec p q) as [<-|_]; [|exact Hqc].
+           destruct (str_eqb_spec c' c) as [->|_]; [|exact Hqc]. exfalso. apply Hne.
+           rewrite (dir_key_unique idx h Hinv cs ps p Hcs Hps Hq HFp); [reflexivity|]. exists pn. auto.
+        -- rewrite HCh in Hqc. destruct (Nat.eqb p q && str_eqb c' c); [discriminate|exact Hqc].
+  - intros i n Hn Hnd. rewrite Hget in Hn. destruct (Nat.eqb p i).
+    + inversion Hn; subst n. change (on_dir pn = false) in Hnd. congruence.
+    + destruct (Nat.eqb t i); [inversion Hn; subst; reflexivity|]. apply (hi_leaf _ _ Hinv _ _ Hn Hnd).
+  - intros i n Hn Hi0. rewrite Hget in Hn.
+    pose proof (kcount_aremove nat (fun v => Nat.eqb v i) _ _ _ (hi_nodup _ _ Hinv) HFt) as Hk. cbv beta in Hk.
+    fold (kcount i idx) in Hk. fold (kcount i (aremove str_eqb (rpath (ps ++ [c])) idx)) in Hk.
+    destruct (Nat.eqb_spec p i) as [<-|Hpi].
+    + inversion Hn; subst n. cbn [on_with_ch on_nlink]. rewrite (hi_nlink _ _ Hinv _ _ Hp Hi0).
+      destruct (Nat.eqb_spec t p); [congruence|]. f_equal. lia.
+    + destruct (Nat.eqb_spec t i) as [<-|Hti].
+      * inversion Hn; subst n. cbn [on_remove on_nlink]. rewrite (hi_nlink _ _ Hinv _ _ Ht Hi0). lia.
+      * rewrite (hi_nlink _ _ Hinv _ _ Hn Hi0). f_equal. lia.
+  - intros i n Hn Hnd. rewrite Hget in Hn. destruct (Nat.eqb p i).
+    + inversion Hn; subst n. cbn [on_with_ch on_nlink]. apply (hi_dirnlink _ _ Hinv _ _ Hp Hpd).
+    + destruct (Nat.eqb t i).
+      * inversion Hn; subst n. change (on_dir tn = true) in Hnd. cbn [on_remove on_nlink].
+        pose proof (hi_dirnlink _ _ Hinv _ _ Ht Hnd). lia.
+      * apply (hi_dirnlink _ _ Hinv _ _ Hn Hnd).
+  - intros i n c' j Hn Hin. rewrite Hget in Hn. destruct (Nat.eqb p i).
+    + inversion Hn; subst n. cbn [on_with_ch on_ch] in Hin. apply in_aremove_in in Hin.
+      apply (hi_chgood _ _ Hinv _ _ _ _ Hp Hin).
+    + destruct (Nat.eqb t i); [inversion Hn; subst; destruct Hin|]. apply (hi_chgood _ _ Hinv _ _ _ _ Hn Hin).
+  - intros i n Hn. rewrite Hget in Hn. destruct (Nat.eqb p i).
+    + inversion Hn; subst n. cbn [on_with_ch on_ch]. apply nodup_aremove. apply (hi_chnodup _ _ Hinv _ _ Hp).
+    + destruct (Nat.eqb t i); [inversion Hn; subst; constructor|]. apply (hi_chnodup _ _ Hinv _ _ Hn).
+Qed.
